@@ -43,7 +43,7 @@ func init() {
 			}
 			return ps
 		},
-		MinObserved: []string{"scenario_executions", "S5_set_calls", "S5_client_ops"},
+		MinObserved: []string{"scenario_executions", "S5_set_calls", "S5_client_ops", "fan_out_handler_rounds", "fresh_servers_whose_first_requests_were_unrouted", "repetitions_with_debug_level_loggers"},
 	})
 }
 
@@ -79,13 +79,13 @@ func c15Scenario(c *Ctx) {
 			c.Count("repetitions_with_debug_level_loggers", 1)
 		}
 		switch {
-		case hasPfx(arg, "S1"):
+		case hasPfx(arg, "S1-"):
 			for _, tr := range []string{"plain", "tls", "starttls"} {
 				c05One(c, pki, c05Cfg{N: 16, K: 4, Transport: tr, Slow: rep%2 == 1}, r.Sub(tr))
 			}
-		case hasPfx(arg, "S2"):
+		case hasPfx(arg, "S2-"):
 			c13Timed(c, pki, c13Timing{rep % 3, (rep + 1) % 6, 0}, 8, rep)
-		case hasPfx(arg, "S3"):
+		case hasPfx(arg, "S3-"):
 			for i := 0; i < 40; i++ {
 				c12One(c, r.Sub(fmt.Sprint(i)), 1000+i)
 			}
@@ -93,27 +93,27 @@ func c15Scenario(c *Ctx) {
 				f()
 			}
 			c12Tails = nil
-		case hasPfx(arg, "S4"):
+		case hasPfx(arg, "S4-"):
 			c08RunWith(c, 10, 1)
-		case hasPfx(arg, "S10"):
+		case hasPfx(arg, "S10-"):
 			for round := 0; round < 4; round++ {
 				c15FanOut(c, round)
 			}
-		case hasPfx(arg, "S9"):
+		case hasPfx(arg, "S9-"):
 			for round := 0; round < 12; round++ {
 				c15UnroutedFirst(c, round)
 			}
-		case hasPfx(arg, "S8"):
+		case hasPfx(arg, "S8-"):
 			for round := 0; round < 6; round++ {
 				c15InflightAcrossStartTLS(c, pki, round)
 			}
-		case hasPfx(arg, "S7"):
+		case hasPfx(arg, "S7-"):
 			for round := 0; round < 8; round++ {
 				c15StartTLSThenStop(c, pki, round)
 			}
-		case hasPfx(arg, "S5"):
+		case hasPfx(arg, "S5-"):
 			c15Directory(c, r, true)
-		case hasPfx(arg, "S6"):
+		case hasPfx(arg, "S6-"):
 			c15Directory(c, r, false)
 		}
 		c.Count("scenario_executions", 1)
